@@ -361,13 +361,21 @@ async fn bounded_search_over_histories() {
     let setups: [&[Op]; 4] = [&[], &[Op::InsA], &[Op::InsA, Op::CIns], &[Op::CIns]];
     let mut failures = Vec::new();
     let mut n = 0usize;
+    let thorough = std::env::var("VERIF_TIER").map(|t| t == "thorough").unwrap_or(false);
     for creation in [ServerStateCreation::NeverSkip, ServerStateCreation::SkipIfEmpty] {
         for missing in [MissingServerState::Reject, MissingServerState::Allow] {
             for setup in setups {
                 let mut histories: Vec<Vec<Op>> = vec![vec![]];
                 for a in OPS { histories.push(vec![a]); for b in OPS { histories.push(vec![a, b]); } }
                 // length 3 only around the operations that interact (sync / cycle / delete / invalidate)
-                for a in OPS { for b in [Op::Sync, Op::Cycle, Op::Delete, Op::Invalidate] { for c in OPS { histories.push(vec![a, b, c]); } } }
+                let pivots = [Op::Sync, Op::Cycle, Op::Delete, Op::Invalidate];
+                if !thorough {
+                    for a in OPS { for b in pivots { for c in OPS { histories.push(vec![a, b, c]); } } }
+                } else {
+                    // thorough tier: every history of length 3, and length 4 with two interacting operations in the middle
+                    for a in OPS { for b in OPS { for c in OPS { histories.push(vec![a, b, c]); } } }
+                    for a in OPS { for b in pivots { for c in pivots { for d in OPS { histories.push(vec![a, b, c, d]); } } } }
+                }
                 for h in histories {
                     n += 1;
                     if let Err(e) = search::run(setup, &h, creation.clone(), missing.clone()).await { failures.push(e); }
@@ -375,7 +383,7 @@ async fn bounded_search_over_histories() {
             }
         }
     }
-    println!("bounded search: {n} histories explored, {} failing", failures.len());
+    println!("VERIF-BOUNDED test=bounded_search_over_histories evaluations={n} bound=2 creation policies x 2 missing-state policies x 4 first requests x every second-request history of 13 operations up to length {} ({} failing)", if thorough { "3, and length 4 around sync/cycle_id/delete/invalidate" } else { "2, and length 3 around sync/cycle_id/delete/invalidate" }, failures.len());
     assert!(failures.is_empty(), "{} failing histories, first 5:\n{}", failures.len(), failures.iter().take(5).cloned().collect::<Vec<_>>().join("\n"));
 }
 
